@@ -46,7 +46,7 @@ PROFILES = {
     "C15": [("once2", 4), ("once", 1), ("sharedkey", 1), ("mix", 1)],
     "C16": [("ewr", 5), ("wr", 1), ("mix", 1)],
     "C17": [("syscall", 1)],
-    "C18": [("stale", 3), ("lifetime", 1), ("mix", 1), ("wide", 1)],
+    "C18": [("stale", 3), ("lifetime", 1), ("mix", 1), ("wide", 1), ("ewr", 0.6)],
 }
 
 THEOREM_MODULE = {p: "Cobweb.Theorems.%s" % p for p in PROJ}
